@@ -1,2 +1,62 @@
 import HeraModel
-def main : IO Unit := IO.println "herad"
+/-
+  herad — the model driver. One request per line on stdin, one canonical answer per line on
+  stdout.  See tools/harness/proto.py for the other side.
+-/
+open Hera Hera.Proto
+
+def wSpecState (σ : Spec.State) (addrs : List Nat) : String :=
+  let regs := (List.range 16).map (fun i => toString (σ.get i).toNat)
+  let f := σ.fl
+  let mem := addrs.map (fun a => toString (σ.mem (BitVec.ofNat 16 a)).toNat)
+  String.intercalate " " (regs ++ [wBool f.s, wBool f.z, wBool f.v, wBool f.c, wBool f.cb, wInt σ.pc,
+    wBool σ.halted] ++ mem)
+
+def handle : R String := do
+  let cmd ← tok
+  match cmd with
+  | "exec" => do
+    let c ← cls
+    let args ← list val
+    let v ← vm
+    match Gen.exec c args v with
+    | .ok (_, v') => pure s!"ok {wVM v'}"
+    | .error e => pure s!"err {e.name}"
+  | "spec" => do
+    let c ← cls
+    let args ← list int
+    let v ← vm
+    let addrs ← list nat
+    match Spec.Instr.ofOp c args with
+    | none => pure "noinstr"
+    | some i =>
+      if !decide i.Valid then pure "invalid"
+      else
+        let σ := abs v
+        let open_ := if i.aliased then 2 else if i.mulHighIn σ then 1 else 0
+        pure s!"ok {open_} {wSpecState (Spec.exec i σ) addrs}"
+  | "wf" => do
+    let v ← vm
+    pure (wBool (wfb v))
+  | "echo" => do
+    let v ← vm
+    pure (wVM v)
+  | _ => fail s!"unknown command {cmd}"
+
+partial def loop (h : IO.FS.Stream) (out : IO.FS.Stream) : IO Unit := do
+  let line ← h.getLine
+  if line.isEmpty then return ()
+  let ts := (line.splitOn " ").map (fun s => s.trimAscii.toString) |>.filter (· ≠ "")
+  match ts with
+  | [] => out.putStrLn ""
+  | id :: rest =>
+    match handle rest with
+    | .ok (s, _) => out.putStrLn s!"{id} {s}"
+    | .error e => out.putStrLn s!"{id} protoerr {e}"
+  loop h out
+
+def main : IO Unit := do
+  let stdin ← IO.getStdin
+  let stdout ← IO.getStdout
+  loop stdin stdout
+  stdout.flush
